@@ -74,6 +74,23 @@ pub fn cases(tier: Tier) -> Vec<Case> {
             });
         }
     }
+    // the same bare item name in two or three LISTs: which list a bare name denotes (compiler:
+    // list literals; runtime: bare names read as variables, names in saves) must not depend on a
+    // hash order
+    let dup_hdr = "LIST lp = (same), p2, other\nLIST lq = q1, (same), other\nLIST lr = r1, r2, (same)\nVAR m = ()\nVAR r = ()\n";
+    let dup: &[(&str, &str)] = &[
+        ("bare-value", "{same} {LIST_VALUE(same)} {other} {LIST_VALUE(other)}"),
+        ("literal", "~ m = (same)\n{m} {LIST_VALUE(m)} {LIST_ALL(m)}"),
+        ("literal-two", "~ m = (same, other)\n{m} {LIST_VALUE(m)} {LIST_ALL(m)} {LIST_INVERT(m)}"),
+        ("assign-bare", "~ r = same\n{r} {LIST_VALUE(r)} {r == lp.same} {r == lq.same} {r == lr.same}"),
+        ("has", "{lp ? same} {lq ? same} {lr ? same} {lp !? other}"),
+        ("add-remove", "~ m = lq\n~ m += other\n~ m -= same\n{m} {LIST_ALL(m)}"),
+        ("qualified", "{lp.same} {lq.same} {lr.same} {LIST_VALUE(lr.same)}"),
+        ("in-choice", "* [{same}] picked {other}\n- {LIST_ALL(same)}"),
+    ];
+    for (n, body) in dup {
+        v.push(Case { id: format!("dup-item/{n}"), feature: "same-item-name-in-several-lists".into(), source: Some(format!("{dup_hdr}Start.\n{body}\nEnd.\n-> END\n")), corpus_json: None, flows: false });
+    }
     // shuffles and randomness
     let rnd: &[(&str, &str)] = &[
         ("shuffle", "VAR i = 0\n-> l\n=== l ===\n~ i = i + 1\n{~a|b|c|d} {~x|y}\n{i < 9: -> l}\n-> END\n"),
